@@ -14,7 +14,10 @@ Options == [collapse_level : {0, 1, 9},
             \* include_keys / exclude_keys: absent, a LIST naming an existing key, a list naming a missing key,
             \* a list naming both, or a callable
             keys_filter : {"none", "include_first", "exclude_first", "exclude_missing",
-                           "include_first_and_missing", "include_first_callable", "exclude_first_callable"},
+                           "include_first_and_missing", "include_first_callable", "exclude_first_callable",
+                           \* ONE-SHOT iterables (the parameters are annotated Iterable): a generator over all
+                           \* keys in reverse container order, an iterator, a map object
+                           "include_all_reversed_generator", "exclude_first_iterator", "include_first_map"},
             uncollapse_first : BOOLEAN,
             max_summary_len_for_str : {80, 8},
             enable_summary_for_str : BOOLEAN,
@@ -22,7 +25,8 @@ Options == [collapse_level : {0, 1, 9},
 
 \* value shapes: leaves "s" (a string from the document's metacharacter class), "n" (a number),
 \* "z" (None/bool); containers with one or two children; every dict key / object field is a user key
-Leaves == {<<"s">>, <<"n">>, <<"z">>}
+\* "c": a CLASS OBJECT as a leaf (not an instance), created dynamically with a hostile __name__
+Leaves == {<<"s">>, <<"n">>, <<"z">>, <<"c">>}
 RECURSIVE Shapes(_)
 Shapes(d) ==
   IF d = 0 THEN Leaves
@@ -43,7 +47,7 @@ Shapes(d) ==
 
 \* every option value and every constructor appears (sanity of the universe itself)
 ASSUME \A k \in {"dict1", "dict2", "list1", "list2", "obj", "tuple", "pdict1", "pdict2", "plist1", "plist2"} : \E s \in Shapes(MaxDepth) : s[1] = k
-ASSUME Cardinality(Options) = 3 * 2 * 2 * 2 * 7 * 2 * 2 * 2 * 2
+ASSUME Cardinality(Options) = 3 * 2 * 2 * 2 * 10 * 2 * 2 * 2 * 2
 
 \* the shipped HTML controls (pyglove/core/views/html/controls) with their option combinations; all
 \* parameters are small ints (meaning per control in pgverif/htmldoc.py: build_control);
@@ -64,8 +68,14 @@ Controls ==
 ASSUME \A n \in {"tab", "label", "badge", "labelgroup", "tooltip", "progress"} : \E c \in Controls : c.ctl = n
 ASSUME \A pos \in 0..1 : \E c \in Controls : c.ctl = "tab" /\ c.p1 = pos
 
+\* what happened on the rendering thread BEFORE the document is rendered: renderings (or option scopes)
+\* that carry options and RAISE part-way.  The document must then equal its rendering on a fresh thread
+\* (Restores of C17 for view_options, with rendering as the probe).
+Faults == {"fail_repr", "fail_view_id", "fail_in_scope", "fail_extension"}
+Histories == {<<>>} \cup {<<f>> : f \in Faults} \cup {<<f, g>> : f \in Faults, g \in Faults}
+
 ASSUME JsonSerialize(IOEnv.OUT_FILE,
-         [options |-> SetToSeq(Options), shapes |-> SetToSeq(Shapes(MaxDepth)),
+         [histories |-> SetToSeq(Histories), options |-> SetToSeq(Options), shapes |-> SetToSeq(Shapes(MaxDepth)),
           controls |-> SetToSeq(Controls)])
 VARIABLE x
 Spec == x = 0 /\ [][x' = x]_x
